@@ -1157,6 +1157,8 @@ func Run(c *hx.Ctx) {
 	}
 	// two concurrent mutators of one router under a deterministic scheduler, every schedule (rlock.go)
 	runRlockAll(c)
+	// lookups of one virtual host parked mid-walk against the in-place single-route updates; the fast index (vhtable.go)
+	runVhtAll(c)
 	// routers loaded from a directory / from static JSON / built by code, dump -> reload through the real loader (mode.go)
 	runModeAll(c)
 	// circuit-breaker thresholds of an updated cluster: live vs a fresh cluster from the dump after every step (rsrc.go)
